@@ -319,6 +319,42 @@ Proof.
       eapply (IH (S h' - length c)%nat); [lia|exact B].
 Qed.
 
+(* the body framing a CONNECT declares does not influence anything the proxy does *)
+Lemma connect_framing_irrelevant : forall cfg r fr t h s,
+  hr_connect r = true -> c18_http cfg (c18_set_framing fr r :: t) h s = c18_http cfg (r :: t) h s.
+Proof.
+  intros cfg r fr t h s Hc. unfold c18_http. destruct (c18_bufio_split h s) as [[b rest]|]; [|reflexivity].
+  destruct r as [c a p k st f0]. cbn in Hc. subst c. reflexivity.
+Qed.
+
+Lemma script_discard_spec : forall s k, concat (c18_script_discard k s) = skipn k (concat s).
+Proof.
+  induction s as [|c t IH]; intros k; [destruct k; reflexivity|].
+  cbn [c18_script_discard concat]. rewrite skipn_app.
+  destruct (Nat.leb k (length c)) eqn:E.
+  - apply Nat.leb_le in E. replace (k - length c)%nat with 0%nat by lia. reflexivity.
+  - apply Nat.leb_gt in E. rewrite IH, (skipn_all2 (n:=k) c) by lia. reflexivity.
+Qed.
+
+Lemma pre_discard_spec : forall k r, c18_pre_remaining (c18_pre_discard k r) = skipn k (c18_pre_remaining r).
+Proof.
+  intros k [b s]. unfold c18_pre_discard, c18_pre_remaining. cbn [pr_buf pr_conn]. rewrite skipn_app.
+  destruct (Nat.leb k (length b)) eqn:E; cbn [pr_buf pr_conn].
+  - apply Nat.leb_le in E. replace (k - length b)%nat with 0%nat by lia. reflexivity.
+  - apply Nat.leb_gt in E. rewrite script_discard_spec, (skipn_all2 (n:=k) b) by lia. reflexivity.
+Qed.
+
+(* a dispatch that closed req.Body of a CONNECT (body.Close discards the declared body from the shared
+   reader) would deliver the stream with its first k bytes missing - never the whole of a non-empty tail *)
+Lemma connect_body_close_truncates : forall k tail,
+  c18_copy_all (c18_pre_discard k tail) = skipn k (c18_pre_remaining tail) /\
+  ((0 < k)%nat -> c18_pre_remaining tail <> [] -> c18_copy_all (c18_pre_discard k tail) <> c18_pre_remaining tail).
+Proof.
+  intros k tail. rewrite c18_copy_all_spec, pre_discard_spec. split; [reflexivity|].
+  intros Hk Hne E. apply (f_equal (@length byte)) in E. rewrite skipn_length in E.
+  destruct (c18_pre_remaining tail); [congruence|]. cbn [length] in E. lia.
+Qed.
+
 (* whatever sizes the relay reads with, through cachedConn the upstream-bound bytes come out in order *)
 Lemma cached_reads_in_order : forall buffered rest sizes out r',
   c18_drain sizes (mkPre buffered rest) = (out, r') ->
@@ -365,13 +401,13 @@ Definition ex_hcfg : c18_hcfg :=
   mkHCfg (Some (fun u p => match u, p with [x75], [x70] => true | _, _ => false end)) true.
 (* "bAsic dTpw" = u:p ; CONNECT with "xy" buffered and "z" still on the wire *)
 Example http_ex_accept :
-  c18_http ex_hcfg [mkHReq true [x61; x3a; x31] (Some [x62; x41; x73; x69; x63; x20; x64; x54; x70; x77]) false 200]
+  c18_http ex_hcfg [mkHReq true [x61; x3a; x31] (Some [x62; x41; x73; x69; x63; x20; x64; x54; x70; x77]) false 200 (FrLen 2)]
            3 [[x00; x00]; [x00; x78; x79]; [x7a]]
   = [HAuth [x75] [x70] true; HTcp [x61; x3a; x31]; HReply 200; HRelay [x78; x79; x7a]; HClose].
 Proof. vm_compute. reflexivity. Qed.
 
 Example http_ex_reject :
-  c18_http ex_hcfg [mkHReq true [x61; x3a; x31] (Some [x42; x61; x73; x69; x63; x20; x64; x54; x70; x78]) false 200]
+  c18_http ex_hcfg [mkHReq true [x61; x3a; x31] (Some [x42; x61; x73; x69; x63; x20; x64; x54; x70; x78]) false 200 FrNone]
            3 [[x00; x00; x00; x78]]
   = [HAuth [x75] [x71] false; HReply 407; HClose].
 Proof. vm_compute. reflexivity. Qed.
